@@ -121,18 +121,43 @@ Section Den.
   Qed.
 End Den.
 
-(* side conditions met while evaluating the regenerated term *)
+(* recognising Mantegna's formula up to ring/field rearrangements of the ratio and of the exponents *)
+Lemma mantegna_shape (Gamma : R -> R) (beta g1 g2 A e B e' : R) :
+  A = sigma_ratio Gamma beta -> e = 1 / beta -> B = Rabs g2 -> e' = 1 / beta ->
+  g1 * rpow0 A e / Rpower B e' = mantegna Gamma beta g1 g2.
+Proof. intros -> -> -> ->. reflexivity. Qed.
+
+(* side conditions met while evaluating the regenerated term: positivity / non-negativity by structure *)
+Ltac levy_pos Hbeta Gpos :=
+  lazymatch goal with
+  | |- 0 < Rpower _ _ => apply Rpower_pos
+  | |- 0 < Rabs _ => apply Rabs_pos_lt; assumption
+  | |- 0 < ?a * ?b => apply Rmult_lt_0_compat; levy_pos Hbeta Gpos
+  | |- 0 < ?a / ?b => apply Rdiv_lt_0_compat; levy_pos Hbeta Gpos
+  | |- 0 < / ?a => apply Rinv_0_lt_compat; levy_pos Hbeta Gpos
+  | |- 0 < _ => first [ lra | apply Gpos; lra ]
+  end.
+Ltac levy_sin_arg Hbeta :=
+  let HP := fresh "HP" in let H1 := fresh "H1" in let H2 := fresh "H2" in
+  pose proof PI_RGT_0 as HP;
+  match type of Hbeta with 0 < ?b <= 2 =>
+    assert (H1 : 0 <= PI * b) by (apply Rmult_le_pos; lra);
+    assert (H2 : 0 <= PI * (2 - b)) by (apply Rmult_le_pos; lra)
+  end; nra.
+Ltac levy_nonneg Hbeta Gpos :=
+  lazymatch goal with
+  | |- 0 <= sin _ => apply sin_ge_0; levy_sin_arg Hbeta
+  | |- 0 <= ?a * ?b => apply Rmult_le_pos; levy_nonneg Hbeta Gpos
+  | |- 0 <= ?a / ?b => unfold Rdiv at 1; apply Rmult_le_pos; [levy_nonneg Hbeta Gpos | left; apply Rinv_0_lt_compat; levy_pos Hbeta Gpos]
+  | |- 0 <= _ => first [ lra | left; levy_pos Hbeta Gpos ]
+  end.
 Ltac levy_side Hbeta Gpos :=
   first
     [ assumption
     | lra
-    | apply Rpower_pos
-    | apply Rgt_not_eq; apply Rlt_gt; apply sigma_den_pos; assumption
-    | apply sigma_ratio_nonneg; assumption
-    | apply inv_beta_pos; assumption
-    | apply Rabs_pos_lt; assumption
-    | apply Rgt_not_eq; apply Rlt_gt; apply Rpower_pos
-    | apply Rgt_not_eq; apply Rlt_gt; lra ].
+    | levy_pos Hbeta Gpos
+    | levy_nonneg Hbeta Gpos
+    | apply Rgt_not_eq; apply Rlt_gt; levy_pos Hbeta Gpos ].
 
 (* evaluates [lden] of a concrete term, discharging every guard *)
 Ltac levy_eval Hbeta Gpos :=
@@ -142,3 +167,30 @@ Ltac levy_eval Hbeta Gpos :=
                 | rewrite gpow_pos by levy_side Hbeta Gpos
                 | rewrite gpow_nonneg by levy_side Hbeta Gpos ]);
   cbn [lden bind1 bind2].
+
+(* equality of two real expressions up to commuting products and ring-equal arguments of Gamma / sin / powers *)
+Ltac levy_cong :=
+  first
+    [ reflexivity
+    | ring
+    | lra
+    | lazymatch goal with
+      | |- ?a * ?b = ?c * ?d =>
+          first [ apply f_equal2; levy_cong | rewrite (Rmult_comm a b); apply f_equal2; levy_cong ]
+      | |- ?a / ?b = ?c / ?d => apply f_equal2; levy_cong
+      | |- Rpower _ _ = Rpower _ _ => apply f_equal2; levy_cong
+      | |- sin _ = sin _ => apply f_equal; levy_cong
+      | |- Rabs _ = Rabs _ => apply f_equal; levy_cong
+      | |- ?f ?a = ?f ?b => apply f_equal; levy_cong
+      end
+    | field; lra ].
+
+(* closes  Some <evaluated term> = Some (mantegna ...) *)
+Ltac levy_close Hbeta Gpos :=
+  first
+    [ reflexivity
+    | f_equal; apply mantegna_shape;
+      [ unfold sigma_ratio; levy_cong
+      | first [ reflexivity | field; lra ]
+      | levy_cong
+      | first [ reflexivity | field; lra ] ] ].
